@@ -1652,3 +1652,115 @@ func VH_C19_snapshot_take_vs_install() {
 	vAssert(step >= 4, "script-completed")
 	vReach("end")
 }
+
+// vStaleTermPeer: as vScriptedPeer for the handshake and the probe; then it waits until two pipelined requests have
+// arrived and answers the first with staleTerm (it has moved on to term 5) and the second with success.
+func vStaleTermPeer(conn *vPipeEnd, then func() bool) {
+	br := bufio.NewReader(conn)
+	bw := bufio.NewWriter(conn)
+	appends := 0
+	var held []*appendReq
+	for {
+		b, err := br.ReadByte()
+		if err != nil {
+			return
+		}
+		switch rpcType(b) {
+		case rpcIdentity:
+			q := &identityReq{}
+			if q.decode(br) != nil {
+				return
+			}
+			_ = (&identityResp{resp{term: q.term, result: success}}).encode(bw)
+		case rpcAppendEntries:
+			q := &appendReq{}
+			if q.decode(br) != nil {
+				return
+			}
+			for k := uint64(0); k < q.numEntries; k++ {
+				e := &entry{}
+				if e.decode(br) != nil {
+					return
+				}
+			}
+			appends++
+			if appends == 1 { // the probe
+				_ = (&appendResp{resp{term: q.term, result: success}, q.prevLogIndex + q.numEntries}).encode(bw)
+				break
+			}
+			held = append(held, q)
+			if len(held) < 2 {
+				continue
+			}
+			_ = (&appendResp{resp{term: 5, result: staleTerm}, 0}).encode(bw)
+			if then != nil && then() {
+				// ... and hangs up without answering the second
+				_ = bw.Flush()
+				_ = conn.Close()
+				return
+			}
+			_ = (&appendResp{resp{term: held[1].term, result: success}, held[1].prevLogIndex + held[1].numEntries}).encode(bw)
+			if bw.Flush() != nil {
+				return
+			}
+			continue
+		default:
+			return
+		}
+		if bw.Flush() != nil {
+			return
+		}
+	}
+}
+
+//verif:check C02,C15,C17 sched=coop maxsteps=600000 onunwind=violation stubs=rt,timers,valuefile,abslog onblock=violation reach=two-in-flight,told,end desc="the real replication goroutine with two pipelined requests in flight when the peer answers the first with a stale-term reply (it is in term 5 now) and the second with success: the leader is told exactly the peer's term (newTerm{5}: it must step down to it; neither a later reply nor a failed read of one may replace the term it is told), and the replication ends" bounds="leader log of 1 entry + 1 appended while the first pipelined request is unanswered; scripted peer"
+func VH_C02_replication_staleterm_in_pipeline() {
+	r := vLoopNode(Leader)
+	r.hbTimeout = 1000
+	hangup := vBool("peer.hangs.up.after.stale.reply")
+	r.dialFn = func(network, address string, timeout time.Duration) (net.Conn, error) {
+		a, b := vPipe()
+		go vStaleTermPeer(b, func() bool { return hangup })
+		return a, nil
+	}
+	r.resolver.addrs[2] = vAddr(2)
+	l := r.ldr
+	l.replUpdateCh = make(chan replUpdate, 64)
+	repl := &replication{
+		node: r.configs.Latest.Nodes[2], rtime: newRandTime(),
+		status:        replicationStatus{id: 2, node: r.configs.Latest.Nodes[2]},
+		ldrStartIndex: 1, ldrLastIndex: r.lastLogIndex, nextIndex: r.lastLogIndex + 1,
+		connPool: r.getConnPool(2), hbTimeout: r.hbTimeout, timer: newSafeTimer(),
+		log: r.log.ViewAt(0, r.lastLogIndex), snaps: r.snaps,
+		stopCh: make(chan struct{}), replUpdateCh: l.replUpdateCh, leaderUpdateCh: make(chan leaderUpdate, 1),
+	}
+	areq := &appendReq{req: req{r.term, r.nid}, ldrCommitIndex: r.commitIndex, prevLogIndex: r.lastLogIndex, prevLogTerm: r.lastLogTerm}
+	ended := make(chan struct{})
+	go func() { repl.runLoop(areq); close(ended) }()
+	step := 0
+	vSetIdleHook(func() {
+		switch step {
+		case 0:
+			// the first pipelined request (a heartbeat) is unanswered; a client entry arrives at the leader
+			r.storage.appendEntry(&entry{index: r.lastLogIndex + 1, term: r.term, typ: entryUpdate, data: vBytes("cmd", 1)})
+			repl.leaderUpdateCh <- leaderUpdate{log: r.log.ViewAt(0, r.lastLogIndex), commitIndex: r.commitIndex}
+			vReach("two-in-flight")
+		case 1:
+			close(repl.stopCh) // (if it has not ended by itself: the leader, stepping down, stops it)
+		}
+		step++
+	})
+	<-ended
+	// what the leader's loop finds on its update channel
+	told := false
+	for len(l.replUpdateCh) > 0 {
+		u := <-l.replUpdateCh
+		if nt, ok := u.update.(newTerm); ok {
+			vReach("told")
+			vAssert(nt.val == 5, "ST-leader-is-told-the-peers-term")
+			told = true
+		}
+	}
+	vAssert(told, "ST-stale-term-reply-reaches-the-leader")
+	vReach("end")
+}
